@@ -45,24 +45,7 @@ func checkC06(r *Run) {
 		}
 	}
 	// callers and their guards
-	if f := r.fn(posK + "StakeValidator"); f != nil {
-		r.callersExactly("C06-R1", "StakeValidator", r.edgesTo(f), []string{"x/pos.stakeNewValidator", "x/pos.stakeRegisteredValidator"})
-		for _, e := range r.edgesTo(f) {
-			n := short(e.Caller.String())
-			t := P.callTerm(e.Site)
-			v, amt := argTerm(t, 2).String(), argTerm(t, 3).String()
-			gs := P.Guards(e.Site, 2)
-			// ValidateValidatorStaking(ctx, v, amt) == nil on the same validator and amount
-			okV, _ := HasAtom(gs, `^isnil\(`+q(posK+"ValidateValidatorStaking(param:k, param:ctx, "+v+", "+amt+")")+`\)$`)
-			r.Check(okV, "C06-R1", "StakeValidator@"+n+"/validated-same-validator-and-amount", P.InstrPos(e.Site), "ValidateValidatorStaking(v, amount)=nil for the staked (v, amount)", "StakeValidator("+v+", "+amt+") is not dominated by a successful ValidateValidatorStaking of the same validator and amount; guards: "+strings.Join(atomStrings(gs), " ; "))
-			r.requireAtoms("C06-R1", "StakeValidator@"+n, e.Site, gs, []req{
-				{"is-unstaked", `^` + q(vT+"IsUnstaked("+v+")") + `$`},
-				{"amount>=minimum", `^!\(types\.Int\)\.LT\(` + q(amt) + `, types\.NewInt\(` + q(posK+"MinimumStake(param:k, param:ctx)") + `\)\)$`},
-				{"has-coins", `^x/pos/types\.AuthKeeper\.HasCoins\(param:k\.authKeeper, param:ctx, ` + q(v) + `\.Address, ` + q("types.NewCoins(list(types.NewCoin("+posK+"StakeDenom(param:k, param:ctx), "+amt+")))") + `\)$`},
-			})
-			r.Check(amt == "param:msg.Value", "C06-R1", "StakeValidator@"+n+"/amount-is-msg-value", P.InstrPos(e.Site), amt, "stakes "+amt+" instead of msg.Value")
-		}
-	}
+	stakeGuards(r, "C06-R1")
 	if f := r.fn("x/pos.stakeNewValidator"); f != nil {
 		// new validator: not registered before, status forced to Unstaked before validation
 		if c := r.oneCall("C06-R1", "stakeNewValidator", f, posK+"RegisterValidator"); c != nil {
@@ -382,5 +365,28 @@ func checkTombstone(r *Run, rule string) {
 				r.Check(v == "true", rule, "Tombstoned/only-set-true@"+short(enclosingTop(fn).String()), P.InstrPos(st), "set to true", "Tombstoned is assigned "+v)
 			}
 		})
+	}
+}
+
+// stakeGuards: StakeValidator is reached only after a successful validation of the same validator and amount (C06-R1, C11-R8).
+func stakeGuards(r *Run, rule string) {
+	P := r.P
+	if f := r.fn(posK + "StakeValidator"); f != nil {
+		r.callersExactly(rule, "StakeValidator", r.edgesTo(f), []string{"x/pos.stakeNewValidator", "x/pos.stakeRegisteredValidator"})
+		for _, e := range r.edgesTo(f) {
+			n := short(e.Caller.String())
+			t := P.callTerm(e.Site)
+			v, amt := argTerm(t, 2).String(), argTerm(t, 3).String()
+			gs := P.Guards(e.Site, 2)
+			// ValidateValidatorStaking(ctx, v, amt) == nil on the same validator and amount
+			okV, _ := HasAtom(gs, `^isnil\(`+q(posK+"ValidateValidatorStaking(param:k, param:ctx, "+v+", "+amt+")")+`\)$`)
+			r.Check(okV, rule, "StakeValidator@"+n+"/validated-same-validator-and-amount", P.InstrPos(e.Site), "ValidateValidatorStaking(v, amount)=nil for the staked (v, amount)", "StakeValidator("+v+", "+amt+") is not dominated by a successful ValidateValidatorStaking of the same validator and amount; guards: "+strings.Join(atomStrings(gs), " ; "))
+			r.requireAtoms(rule, "StakeValidator@"+n, e.Site, gs, []req{
+				{"is-unstaked", `^` + q(vT+"IsUnstaked("+v+")") + `$`},
+				{"amount>=minimum", `^!\(types\.Int\)\.LT\(` + q(amt) + `, types\.NewInt\(` + q(posK+"MinimumStake(param:k, param:ctx)") + `\)\)$`},
+				{"has-coins", `^x/pos/types\.AuthKeeper\.HasCoins\(param:k\.authKeeper, param:ctx, ` + q(v) + `\.Address, ` + q("types.NewCoins(list(types.NewCoin("+posK+"StakeDenom(param:k, param:ctx), "+amt+")))") + `\)$`},
+			})
+			r.Check(amt == "param:msg.Value", rule, "StakeValidator@"+n+"/amount-is-msg-value", P.InstrPos(e.Site), amt, "stakes "+amt+" instead of msg.Value")
+		}
 	}
 }
